@@ -9,12 +9,14 @@ import (
 	"fmt"
 	"hash/fnv"
 	"os"
+	"os/exec"
 	"path/filepath"
 	"runtime/debug"
 	"sort"
 	"strconv"
 	"strings"
 	"sync"
+	"syscall"
 	"testing"
 	"time"
 )
@@ -392,4 +394,26 @@ func Scratch(prefix string) string {
 		}
 	}
 	return d
+}
+
+// RunTestAs re-executes this test binary with -test.run=^<testName>$ under another uid/gid (dropped privileges) and
+// returns the text after the marker "REPLY " on its output, or ok=false when that was not possible here.
+func RunTestAs(uid uint32, testName string, env ...string) (reply string, ok bool) {
+	if os.Geteuid() != 0 {
+		return "", false
+	}
+	cmd := exec.Command(os.Args[0], "-test.run", "^"+testName+"$", "-test.v")
+	cmd.Env = append(os.Environ(), env...)
+	cmd.SysProcAttr = &syscall.SysProcAttr{Credential: &syscall.Credential{Uid: uid, Gid: uid}}
+	cmd.Dir = "/"
+	out, _ := cmd.CombinedOutput()
+	i := strings.Index(string(out), "REPLY ")
+	if i < 0 {
+		return "", false
+	}
+	line := string(out[i+6:])
+	if j := strings.IndexByte(line, '\n'); j >= 0 {
+		line = line[:j]
+	}
+	return line, true
 }
